@@ -10,7 +10,12 @@ run_cases writes the probe crate _build/probe_c19/ (path dependency on the ruint
 harness/Cargo.toml, features std), one program per source line:
   literal: fn mI(){ out(I, probe(&ENTRY!(<literal>), "<digits>")) }  and the same without the macro
            (fn pI, the "plain twin");
-  tree:    const TI: &str = ENTRY!{ stringify!( <tokens> ) };
+  fwd:     macro_rules! fmI { ($e:expr) => { ENTRY!($e) } }  fn mI(){ out(I, probe(&fmI!(<literal>), ..)) }
+           (the literal reaches the proc macro inside a None-delimited group; plain twin: `=> { $e }`);
+  tree:    const TI: &str = ENTRY!{ stringify!( <tokens> ) };   a None-delimited group of the tree (item
+           `0,3`) is produced by forwarding its contents as an `$eK:expr` argument of a per-case
+           macro_rules! fwI { ($e0:expr, ..) => { ENTRY!{ stringify!( .. $e0 .. ) } } } (contents must
+           parse as one expression and must not contain another None group);
 compiles it with --message-format=json, attributes every error to its source line (following macro
 expansion backtraces), blanks the failing lines and recompiles until the crate builds, runs it, and
 classifies:
@@ -44,7 +49,9 @@ RUNNER = "custom"
 RUNMOD = "RunC19"
 LEVEL = "proof"
 RULE = ("programs = one literal inside uint! (3 entry points: ruint::uint!, ruint_macro::uint!, "
-        "uint_with_path!) or a token tree of depth <= 4 inside ENTRY!{stringify!(..)}; literals: bases "
+        "uint_with_path!), the same literal forwarded through a macro_rules `$e:expr` fragment (None-delimited "
+        "group, call fwd), or a token tree of depth <= 4 inside ENTRY!{stringify!(..)} (17% of the trees contain "
+        "None-delimited groups: lit, lit op lit, (lit), -lit, [lit, lit], {lit}, foo(lit)); literals: bases "
         "2/8/10/16 x digit strings of 1..~1250 digits with underscores x U/B suffix widths 0..4096 "
         "(0,1,7,8,63,64,65,256,4096 always), values 2^bits-1, 2^bits, 2^bits+1, invalid digits per base "
         "(digit = base, a-f/A-F in decimal, g-z, non-ASCII), hexadecimal ..B<digits> with and without "
@@ -101,6 +108,10 @@ def lit_line(text, entry=0, bits=None):
     return "literal %d Z:%x %s" % (bits, entry, tokY(text))
 
 
+def fwd_line(text, entry=0):
+    return "fwd" + lit_line(text, entry)[len("literal"):]
+
+
 def label_bits(text):
     """the label only: the suffix width (or 0)"""
     m = re.search(rb"[UB](\d+)$", text)
@@ -108,11 +119,11 @@ def label_bits(text):
 
 
 def tree_line(items, entry=0):
-    """items: list of ('(',) ('[',) ('{',) (')',) ('L', text) ('O', text)"""
+    """items: list of ('(',) ('[',) ('{',) ('N',) = None-delimited, (')',) close, ('L', text) ('O', text)"""
     enc, bits = [], 0
     for it in items:
-        if it[0] in "([{":
-            enc.append("0,%x" % "([{".index(it[0]))
+        if it[0] in "([{N":
+            enc.append("0,%x" % "([{N".index(it[0]))
         elif it[0] == ")":
             enc.append("1")
         else:
@@ -126,8 +137,8 @@ def tree_line(items, entry=0):
 def parse_case(line):
     p = line.split()
     entry = int(p[2][2:], 16)
-    if p[0] == "literal":
-        return ("literal", entry, bytes.fromhex(p[3][2:]))
+    if p[0] in ("literal", "fwd"):
+        return (p[0], entry, bytes.fromhex(p[3][2:]))
     items = []
     for part in p[3][3:].split(";")[:-1]:
         xs = [int(x, 16) for x in part.split(",")]
@@ -162,17 +173,35 @@ CLOSE = {0: ")", 1: "]", 2: "}"}
 OPEN = {0: "(", 1: "[", 2: "{"}
 
 
-def items_src(items):
-    out, stack = [], []
+def items_src(items, args=None):
+    """source text of an item list; the contents of a None-delimited group are moved to `args` (macro_rules
+    arguments) and replaced by $eK.  Without `args` None groups are not supported."""
+    out, stack, cur = [], [], None
     for it in items:
+        tgt = out if cur is None else cur
         if it[0] == 0 and len(it) == 2:
-            out.append(OPEN[it[1]])
+            if it[1] == 3:
+                if args is None or cur is not None:
+                    raise ValueError("unsupported None-delimited group")
+                cur = []
+            else:
+                tgt.append(OPEN[it[1]])
             stack.append(it[1])
         elif it == [1]:
-            out.append(CLOSE[stack.pop()])
+            d = stack.pop()
+            if d == 3:
+                args.append(" ".join(cur))
+                out.append("$e%d" % (len(args) - 1))
+                cur = None
+            else:
+                tgt.append(CLOSE[d])
         else:
-            out.append(bytes(it[1:]).decode("utf-8"))
+            tgt.append(bytes(it[1:]).decode("utf-8"))
     return " ".join(out)
+
+
+def has_none(items):
+    return any(it == [0, 3] for it in items)
 
 
 def split_first_group(items):
@@ -201,7 +230,7 @@ def build_source(cases):
         where[len(src)] = (idx, role)
 
     for i, (kind, entry, payload) in enumerate(cases):
-        if kind == "literal":
+        if kind in ("literal", "fwd"):
             try:
                 lit = payload.decode("utf-8")
             except UnicodeDecodeError:
@@ -210,18 +239,33 @@ def build_source(cases):
                 continue
             d = rust_str(digits_of(payload))
             pre = "[ruint] " if entry == 2 else ""
-            add("fn m%d() { out(\"m%d\", guard(|| probe(&%s(%s%s), %s))); }" % (i, i, ENTRY_SRC[entry], pre, lit, d), i, "m")
-            add("fn p%d() { out(\"p%d\", guard(|| probe(&(%s), %s))); }" % (i, i, lit, d), i, "p")
+            if kind == "literal":
+                add("fn m%d() { out(\"m%d\", guard(|| probe(&%s(%s%s), %s))); }" % (i, i, ENTRY_SRC[entry], pre, lit, d), i, "m")
+                add("fn p%d() { out(\"p%d\", guard(|| probe(&(%s), %s))); }" % (i, i, lit, d), i, "p")
+            else:
+                add("macro_rules! fm%d { ($e:expr) => { %s(%s$e) } } fn m%d() { out(\"m%d\", guard(|| probe(&fm%d!(%s), %s))); }"
+                    % (i, ENTRY_SRC[entry], pre, i, i, i, lit, d), i, "m")
+                add("macro_rules! fp%d { ($e:expr) => { $e } } fn p%d() { out(\"p%d\", guard(|| probe(&fp%d!(%s), %s))); }"
+                    % (i, i, i, i, lit, d), i, "p")
             calls.append(("m%d();" % i, i, "cm"))
             calls.append(("p%d();" % i, i, "cp"))
         else:
             items = payload
             sp = split_first_group(items) if entry == 2 else None
-            if sp:
-                body = "%s stringify!( %s )" % (items_src(sp[0]), items_src(sp[1]))
+            args = [] if has_none(items) else None
+            try:
+                if sp:
+                    body = "%s stringify!( %s )" % (items_src(sp[0], args), items_src(sp[1], args))
+                else:
+                    body = "stringify!( %s )" % items_src(items, args)
+            except (ValueError, IndexError, KeyError):
+                continue
+            if args is None:
+                add("const T%d: &str = %s{ %s };" % (i, ENTRY_SRC[entry], body), i, "t")
             else:
-                body = "stringify!( %s )" % items_src(items)
-            add("const T%d: &str = %s{ %s };" % (i, ENTRY_SRC[entry], body), i, "t")
+                add("macro_rules! fw%d { (%s) => { %s{ %s } } } const T%d: &str = fw%d!(%s);"
+                    % (i, ", ".join("$e%d:expr" % k for k in range(len(args))), ENTRY_SRC[entry], body, i, i,
+                       ", ".join(args)), i, "t")
             calls.append(("out(\"t%d\", T%d.replace('\\n', \" \"));" % (i, i), i, "ct"))
     src.append("fn main() {")
     src.append("std::panic::set_hook(Box::new(|_| {}));")
@@ -387,7 +431,7 @@ def _run_cases(lines, profile):
         outp[tag] = rest
     res = []
     for i, (kind, entry, payload) in enumerate(cases):
-        if kind == "literal":
+        if kind in ("literal", "fwd"):
             em, ep = errs.get((i, "m"), set()), errs.get((i, "p"), set())
             if em:
                 res.append("Z:0" if em == ep else "CE")
@@ -536,6 +580,18 @@ def corpus():
         out.append(T([("{",), ("{",), ("{",), ("{",), lit("0xffff_B16"), lit("\"é\"U8"), (")",), (")",), (")",), (")",)], e))
         out.append(T([("(",), oth("ruint"), (")",), ("(",), ("[",), ("{",), ("(",), lit("7_U3"), lit("8_U3"),
                       (")",), (")",), (")",), (")",)], e))
+    # None-delimited groups: literals forwarded through macro_rules `$e:expr` fragments
+    for e in (0, 1, 2):
+        for t in ("0x1_B8", "12_U8", "255_U8", "256_U8", "12a_U8", "0xffB8", "12U", "1u8", "\"aU8\"", "0_U0",
+                  "18446744073709551616_U65", "0x2A_B256"):
+            out.append(fwd_line(t, e))
+        out.append(T([("N",), lit("0x1_B8"), (")",)], e))
+        out.append(T([oth("show"), ("(",), ("N",), lit("12_U8"), oth("+"), lit("1_U8"), (")",), (")",)], e))
+        out.append(T([("{",), ("[",), ("(",), oth("show"), ("(",), ("N",), lit("0x2A_B256"), (")",), (")",), oth(","),
+                      (")",), (")",), (")",)], e))
+        out.append(T([("(",), oth("ruint"), (")",), ("N",), ("(",), lit("7_U3"), (")",), (")",), ("N",), oth("-"),
+                      lit("8_U3"), (")",), ("N",), ("[",), lit("1u8"), oth(","), lit("0xABB8"), oth(","), lit("12U"),
+                      (")",), (")",)], e))
     return [x for x in out if x not in SUSPECT]
 
 
@@ -588,6 +644,31 @@ def rand_literal(rng, big=False, tier="quick"):
     return t
 
 
+def none_group(rng, tier):
+    """a None-delimited group: one expression forwarded as a macro_rules fragment"""
+    def L():
+        if rng.random() < 0.7:
+            t = rand_literal(rng, tier=tier)
+            return ("L", t if len(t) < 120 else "1_U8")
+        return ("L", rng.choice(PASS_LITS))
+    form = rng.randrange(7)
+    if form == 0:
+        body = [L()]
+    elif form == 1:
+        body = [L(), ("O", rng.choice("+-*/")), L()]
+    elif form == 2:
+        body = [("(",), L(), (")",)]
+    elif form == 3:
+        body = [("O", "-"), L()]
+    elif form == 4:
+        body = [("[",), L(), ("O", ","), L(), (")",)]
+    elif form == 5:
+        body = [("{",), L(), (")",)]
+    else:
+        body = [("O", "foo"), ("(",), L(), (")",)]
+    return [("N",)] + body + [(")",)]
+
+
 def gen(rng, tier):
     n_lit = 420 if tier == "quick" else 1500
     n_tree = 90 if tier == "quick" else 250
@@ -628,12 +709,19 @@ def gen(rng, tier):
         out.append(lit_line(t, rng.choice([0, 0, 0, 1, 2])))
     rng.shuffle(out)         # spread the long literals over the coqc shards
     # token trees
+    for _ in range(40 if tier == "quick" else 200):
+        t = rand_literal(rng, tier=tier) if rng.random() < 0.8 else rng.choice(PASS_LITS)
+        if len(t) < 400:
+            out.append(fwd_line(t, rng.choice([0, 0, 1, 2])))
     for _ in range(n_tree):
         items, depth = [], 0
         n = rng.randrange(1, 14)
+        with_none = rng.random() < 0.17
         for _k in range(n):
             r = rng.random()
-            if r < 0.22 and depth < 4:
+            if with_none and (rng.random() < 0.3 or _k == n - 1 and not any(i == ("N",) for i in items)):
+                items += none_group(rng, tier)
+            elif r < 0.22 and depth < 4:
                 items.append((rng.choice("([{"),))
                 depth += 1
             elif r < 0.36 and depth > 0:
@@ -656,7 +744,7 @@ def gen(rng, tier):
 
 def nontrivial(line):
     kind, entry, payload = parse_case(line)
-    if kind == "literal":
+    if kind in ("literal", "fwd"):
         return re.search(rb"[UB]\d+$", payload) is not None
     return any(it[0] == 2 and re.search(rb"[UB]\d+$", bytes(it[1:])) for it in payload)
 
